@@ -412,7 +412,11 @@ def shape_values(ctx, rng, ncases):
         def tol(point, want, k, axes):
             st = steps(k)
             den = math.prod(st[a] for a in axes)
-            return 1e-14 * size(point) / den + 5e-11 * abs(want)
+            # rounding model: the stencil combines values with sum|coefficient| <= 2.25 (Hessian,
+            # order 4), each value carries the evaluation error of the polynomial itself,
+            # ~ 2 * degree * (#terms) * eps * size <= ~20 eps size; 1e-13 ~ 450 eps leaves a
+            # factor ~10 (1e-14 was seen to fire: exact 0.0, got -3.6e-12, VERIF_SEED=32)
+            return 1e-13 * size(point) / den + 5e-10 * abs(want)
 
         case0 = dict(order=order, nv=nv, terms={str(k): v for k, v in terms.items()},
                      x=np.asarray(x).tolist(), lead=list(lead), step=stepkind,
@@ -611,7 +615,14 @@ def array_family(ctx, rng, ncases):
             xi = xf[i].item()                     # python int or float
             ri = helpers.derivative(g, xi, n=n, order=order, bounds=bounds, dx=dx)
             pi = np.asarray(g.calls[0]).ravel()
-            if not np.array_equal(pi, P[:, i]) or float(ri) != float(rf[i]):
+            # abscissas bit for bit; the value up to summation order (numpy's vectorised product
+            # and sum over the stencil may round differently from the scalar call: 1 ulp seen,
+            # 4.0 vs 4.000000000000002, VERIF_SEED=40)
+            _ps = sorted(set(pi.tolist()))
+            _dxe = min(b - a for a, b in zip(_ps, _ps[1:])) if len(_ps) > 1 else 1.0
+            _tolv = float(2 * RTOL * rounding_bound(coeffs, pi.tolist(), _dxe, order, n))
+            if not np.array_equal(pi, P[:, i]) or not (
+                    abs(float(ri) - float(rf[i])) <= _tolv):
                 ctx.fail_input(
                     "derivative(f, x)[%d] differs from derivative(f, x[%d]) (x[%d]=%r): "
                     "value %r vs %r, abscissas %s vs %s" % (
